@@ -170,6 +170,13 @@ def canaries(report, module, events, corrupt, *, env=None, want=12, label=None):
     (what, corrupted copy)), and require the judge to reject every corrupted event.  A judge that accepts one is not constraining that field:
     machinery error, never a verdict.  Returns the number of corrupted events rejected."""
     import copy as _copy
+    # only events the judge ACCEPTS as they are can serve as a base: corrupting one field of an event that already violates a clause
+    # (the code under test may be defective) can turn it into a conforming one
+    events = list(events)[:max(want * 6, 60)]
+    if events:
+        base = tla.judge(module, events, jobs=1, env=env)
+        rejected = {gi for gi, _, _ in base["bad"]}
+        events = [e for i, e in enumerate(events) if i not in rejected]
     bad_events, whats = [], []
     for e in events:
         for what, c in corrupt(_copy.deepcopy(e)):
@@ -178,6 +185,10 @@ def canaries(report, module, events, corrupt, *, env=None, want=12, label=None):
         if len(bad_events) >= want:
             break
     if not bad_events:
+        if not events:
+            # every sample event already violates the specification: the violations are reported by the check itself, nothing to demonstrate here
+            report.coverage.setdefault("binding_canaries", {})[label or module] = {"corrupted_events_rejected": 0, "fields": [], "note": "no conforming sample event"}
+            return 0
         raise tla.MachineryError(f"no canary could be derived from the sample events of {module}")
     res = tla.judge(module, bad_events, jobs=1, env=env)
     flagged = {gi for gi, _, _ in res["bad"]}
